@@ -1,13 +1,211 @@
-/- C12 — property theorems (filled below). -/
+/-
+C12 — connectivity, bipartiteness and cycle functions describe the graph truthfully.
+
+Property theorems about the models of sknetwork/topology/structure.py (Model/Connectivity.lean) and
+cycles.py (Model/Cycles.lean).  `connected_components` of scipy is a parameter; where a theorem needs it,
+its contract `IsLabelling` (Spec/Connectivity.lean) is an explicit hypothesis (checked on every run by the
+`contract` lines of the harness).
+-/
 import SkNet.Model.Connectivity
 import SkNet.Model.Cycles
 import SkNet.Spec.Connectivity
+import SkNet.Lemmas.Connectivity
+import SkNet.Lemmas.BreakCycles
 
 namespace SkNet.C12
 open SkNet SkNet.Connectivity SkNet.Cycles
 
-/-- the extracted sub-matrix has one row per selected row index -/
-theorem subMatrix_length (m : Mat) (r c : List Nat) : (subMatrix m r c).length = r.length := by
-  simp [subMatrix]
+/-! ## get_connected_components, is_connected -/
+
+/-- `get_connected_components` hands back exactly scipy's labelling of the adjacency it builds
+    (the matrix itself, or the block form `[[0,B],[Bᵀ,0]]` when `force_bipartite` or not square),
+    and refuses a matrix without stored entry. -/
+theorem getConnectedComponents_eq (cc : CC) (m : Mat) (strong fb : Bool) (labels : List Nat)
+    (h : getConnectedComponents cc m strong fb = .ok labels) :
+    m.nnz ≠ 0 ∧ labels = cc (if (fb || !m.isSquare) = true then m.block else m) strong := by
+  unfold getConnectedComponents at h
+  cases hcf : checkFormat m with
+  | error e => simp [hcf] at h
+  | ok u =>
+    simp only [hcf] at h
+    cases hga : getAdjacency m fb with
+    | error e => simp [hga] at h
+    | ok p =>
+      obtain ⟨hn, hp⟩ := getAdjacency_ok hga
+      simp only [hga] at h
+      cases h
+      refine ⟨hn, ?_⟩
+      rw [hp]
+      split <;> rfl
+
+/-- With scipy's contract, the labels returned by `get_connected_components` are equal exactly for
+    nodes of the same weak / strong component of the (block) adjacency. -/
+theorem getConnectedComponents_components (cc : CC) (m : Mat) (strong fb : Bool) (labels : List Nat)
+    (h : getConnectedComponents cc m strong fb = .ok labels)
+    (hcc : ∀ g : Mat, IsLabelling g.nRow g.adj strong (cc g strong)) :
+    let g := if (fb || !m.isSquare) = true then m.block else m
+    labels.length = g.nRow ∧
+    ∀ u v, u < g.nRow → v < g.nRow → (labels.getD u 0 = labels.getD v 0 ↔ SameComp g.nRow g.adj strong u v) := by
+  intro g
+  obtain ⟨_, rfl⟩ := getConnectedComponents_eq cc m strong fb labels h
+  exact hcc g
+
+example : getConnectedComponents (fun _ _ => [0, 0, 1]) ⟨3, 3, fun i => if i = 0 then [1] else [], fun _ _ => 1⟩ false false
+    = .ok [0, 0, 1] := by rfl
+
+/-- ★ `is_connected` is true exactly when all nodes carry one label (and there is a node): with scipy's
+    contract, exactly when every two nodes lie in the same weak / strong component. -/
+theorem isConnected_iff (cc : CC) (m : Mat) (strong fb : Bool) (b : Bool)
+    (h : isConnected cc m strong fb = .ok b)
+    (hcc : ∀ g : Mat, IsLabelling g.nRow g.adj strong (cc g strong)) :
+    let g := if (fb || !m.isSquare) = true then m.block else m
+    (b = true ↔ 0 < g.nRow ∧ ∀ u v, u < g.nRow → v < g.nRow → SameComp g.nRow g.adj strong u v) := by
+  intro g
+  unfold isConnected at h
+  cases hl : getConnectedComponents cc m strong fb with
+  | error e => simp [hl] at h
+  | ok labels =>
+    simp only [hl] at h
+    cases h
+    obtain ⟨hlen, hsame⟩ := getConnectedComponents_components cc m strong fb labels hl hcc
+    change labels.length = g.nRow at hlen
+    rw [beq_iff_eq, npUnique_length_eq_one]
+    constructor
+    · intro ⟨hne, hall⟩
+      refine ⟨?_, fun u v hu hv => ?_⟩
+      · rw [← hlen]; exact List.length_pos_iff.mpr hne
+      · apply (hsame u v hu hv).mp
+        have hu' : u < labels.length := hlen ▸ hu
+        have hv' : v < labels.length := hlen ▸ hv
+        apply hall
+        · simp [List.getD_eq_getElem?_getD, hu']
+        · simp [List.getD_eq_getElem?_getD, hv']
+    · intro ⟨hpos, hall⟩
+      refine ⟨?_, fun a ha c hc => ?_⟩
+      · apply List.length_pos_iff.mp; rw [hlen]; exact hpos
+      · obtain ⟨u, hu, rfl⟩ := List.getElem_of_mem ha
+        obtain ⟨v, hv, rfl⟩ := List.getElem_of_mem hc
+        have := (hsame u v (hlen ▸ hu) (hlen ▸ hv)).mpr (hall u v (hlen ▸ hu) (hlen ▸ hv))
+        simpa [List.getD_eq_getElem?_getD, hu, hv] using this
+
+example : isConnected (fun _ _ => [0, 0, 1]) ⟨3, 3, fun i => if i = 0 then [1] else [], fun _ _ => 1⟩ false false
+    = .ok false := by rfl
+
+/-! ## get_largest_connected_component -/
+
+/-- ★ `largest_component_induced` (adjacency matrix): the returned index lists, in increasing order, exactly the
+    nodes of one label class `L` of the labelling, no class is larger, and the returned matrix is the input
+    restricted to the index (rows, then columns). -/
+theorem largest_component_induced (cc : CC) (m : Mat) (strong : Bool) (r : Largest)
+    (hsq : m.isSquare = true)
+    (h : getLargestConnectedComponent cc m strong false = .ok r)
+    (hlab : cc m strong ≠ []) :
+    let labels := cc m strong
+    ∃ L, L ∈ labels ∧ (∀ l, labels.count l ≤ labels.count L) ∧
+      (∀ v, v ∈ r.index ↔ v < labels.length ∧ labels.getD v 0 = L) ∧
+      r.index.Pairwise (· < ·) ∧ r.index.length = labels.count L ∧
+      r.matrix.length = r.index.length ∧
+      ∀ a b, a < r.index.length → b < r.index.length →
+        (r.matrix.getD a []).getD b 0 = m.val (r.index.getD a 0) (r.index.getD b 0) := by
+  intro labels
+  have hs := getLargest_spec cc m strong false r h
+  simp only [hsq, Bool.not_true, Bool.or_false, Bool.false_eq_true, ↓reduceIte, forall_const, false_imp_iff,
+    and_true] at hs
+  obtain ⟨_, hidx, hmat, _⟩ := hs
+  obtain ⟨hL, hmax⟩ := largest_count_max hlab
+  refine ⟨_, hL, hmax, ?_, ?_, ?_, ?_, ?_⟩
+  · intro v; rw [hidx]; exact mem_argwhereEq
+  · rw [hidx]; exact argwhereEq_sorted _ _
+  · rw [hidx]; exact argwhereEq_length _ _
+  · rw [hmat]; exact subMatrix_length _ _ _
+  · intro a b ha hb
+    rw [hmat]; exact subMatrix_getD m _ _ a b ha hb
+
+/-- With scipy's contract the index of `largest_component_induced` is a whole component, and a largest one. -/
+theorem largest_component_is_component (n : Nat) (adj : Nat → List Nat) (strong : Bool) (labels index : List Nat) (L : Nat)
+    (hc : IsLabelling n adj strong labels) (hL : L ∈ labels)
+    (hmax : ∀ l, labels.count l ≤ labels.count L)
+    (hidx : ∀ v, v ∈ index ↔ v < labels.length ∧ labels.getD v 0 = L)
+    (hlen : index.length = labels.count L) :
+    (∃ u, u ∈ index) ∧
+    (∀ u ∈ index, ∀ v, v < n → (v ∈ index ↔ SameComp n adj strong u v)) ∧
+    (∀ u, u < n → (argwhereEq labels (labels.getD u 0)).length ≤ index.length) := by
+  obtain ⟨hn, hsame⟩ := hc
+  refine ⟨?_, ?_, ?_⟩
+  · obtain ⟨u, hu, rfl⟩ := List.getElem_of_mem hL
+    exact ⟨u, (hidx u).mpr ⟨hu, by simp [List.getD_eq_getElem?_getD, hu]⟩⟩
+  · intro u hu v hv
+    obtain ⟨hul, huL⟩ := (hidx u).mp hu
+    rw [hidx, ← hsame u v (hn ▸ hul) hv, huL]
+    constructor
+    · intro ⟨_, h⟩; exact h.symm
+    · intro h; exact ⟨hn ▸ hv, h.symm⟩
+  · intro u _
+    rw [argwhereEq_length, hlen]; exact hmax _
+
+example : (getLargestConnectedComponent (fun _ _ => [1, 0, 1])
+      ⟨3, 3, fun i => if i = 0 then [2] else [], fun i j => if i = 0 ∧ j = 2 then 5 else 0⟩ false false).toOption.map (·.index)
+    = some [0, 2] := by decide
+
+/-- ★ `largest_component_induced` (biadjacency matrix: `force_bipartite` or not square): the index is the rows of the
+    largest label class followed by its columns (both increasing, columns numbered from 0), the matrix is the
+    input restricted to these rows and columns. -/
+theorem largest_component_induced_bipartite (cc : CC) (m : Mat) (strong fb : Bool) (r : Largest)
+    (hb : (fb || !m.isSquare) = true)
+    (h : getLargestConnectedComponent cc m strong fb = .ok r)
+    (hlen : (cc m.block strong).length = m.nRow + m.nCol) (hrow : 0 < m.nRow + m.nCol) :
+    let labels := cc m.block strong
+    ∃ L rows cols, r.index = rows ++ cols ∧ r.nIndexRow = rows.length ∧
+      L ∈ labels ∧ (∀ l, labels.count l ≤ labels.count L) ∧
+      (∀ i, i ∈ rows ↔ i < m.nRow ∧ labels.getD i 0 = L) ∧
+      (∀ j, j ∈ cols ↔ j < m.nCol ∧ labels.getD (m.nRow + j) 0 = L) ∧
+      rows.Pairwise (· < ·) ∧ cols.Pairwise (· < ·) ∧
+      r.matrix.length = rows.length ∧
+      ∀ a b, a < rows.length → b < cols.length →
+        (r.matrix.getD a []).getD b 0 = m.val (rows.getD a 0) (cols.getD b 0) := by
+  intro labels
+  have hs := getLargest_spec cc m strong fb r h
+  simp only [hb, ↓reduceIte, forall_const, Bool.true_eq_false, false_imp_iff, true_and] at hs
+  obtain ⟨_, hidx, hni, hmat⟩ := hs
+  have hlab : labels ≠ [] := by
+    intro hl
+    have : labels.length = 0 := by rw [hl]; rfl
+    have h2 : labels.length = m.nRow + m.nCol := hlen
+    omega
+  obtain ⟨hL, hmax⟩ := largest_count_max hlab
+  refine ⟨_, _, _, hidx, hni, hL, hmax, ?_, ?_, argwhereEq_sorted _ _, argwhereEq_sorted _ _, ?_, ?_⟩
+  · intro i
+    rw [mem_argwhereEq]
+    have h2 : labels.length = m.nRow + m.nCol := hlen
+    simp only [List.length_take, List.getD_eq_getElem?_getD, List.getElem?_take]
+    constructor
+    · intro ⟨h1, h3⟩
+      have : i < m.nRow := by omega
+      exact ⟨this, by simpa [this] using h3⟩
+    · intro ⟨h1, h3⟩
+      exact ⟨by omega, by simpa [h1] using h3⟩
+  · intro j
+    rw [mem_argwhereEq]
+    have h2 : labels.length = m.nRow + m.nCol := hlen
+    simp only [List.length_drop, List.getD_eq_getElem?_getD, List.getElem?_drop]
+    constructor
+    · intro ⟨h1, h3⟩; exact ⟨by omega, h3⟩
+    · intro ⟨h1, h3⟩; exact ⟨by omega, h3⟩
+  · rw [hmat]; exact subMatrix_length _ _ _
+  · intro a b ha hb'
+    rw [hmat]; exact subMatrix_getD m _ _ a b ha hb'
+
+/-! ## break_cycles -/
+
+/-- ★ `breakCycles_subgraph`: whatever scipy, the set order and the fuel are, the matrix returned by `break_cycles`
+    (when it is not the input itself) has the rows of the input, and each of its entries is an entry of the
+    input that is not on the diagonal: a subgraph without self-loops. -/
+theorem breakCycles_subgraph (fuel : Nat) (ext : BreakExt) (m : Mat) (root : Option (List Nat))
+    (directed : Option Bool) (a : Rows)
+    (h : breakCyclesWith fuel ext m root directed = .ok (.rows a)) :
+    a.length = m.nRow ∧ ∀ i j, j ∈ a.row i → i < m.nRow ∧ j ∈ m.adj i ∧ j ≠ i := by
+  obtain ⟨hlen, hsub⟩ := breakCyclesWith_rows_sub fuel ext m root directed a h
+  refine ⟨by rw [hlen]; simp [noLoopRows], fun i j hj => ?_⟩
+  exact (mem_noLoopRows m i j).mp (hsub i j hj)
 
 end SkNet.C12
